@@ -373,6 +373,16 @@ def oracle(case: dict, figs: list, datas: list, out: str, label: str = "") -> di
             bump("png-dim>65535")
         if fig["fmt"] == "jpeg" and fig.get("app"):
             bump("jpeg-app-segments")
+            if 65535 in fig["app"]:
+                bump("jpeg-maximal-segment")
+            if not fig.get("tables") and not fig.get("fill"):
+                off = 2 + sum(a + 2 for a in fig["app"])  # where the frame-header marker starts
+                for kk in (16, 17):
+                    for name, lo, hi in (("just-below", -20, -1), ("at-or-above", 0, 9)):
+                        if (1 << kk) + lo <= off <= (1 << kk) + hi:
+                            bump(f"jpeg-frame-header-{name}-2^{kk}")
+        if len(data) > 65536:
+            bump("file>64KiB-" + fig["fmt"])
         if ref is not None and ref[0] != ref[1]:
             bump("non-square")
     for v in (fw, fh):
@@ -556,6 +566,42 @@ def history_cases(full: bool):
                    "source": 1, "pt": "all", "pf": "last", "ps": "first"}
 
 
+def app_for_offset(target: int):
+    """APPn segment lengths (each <= 65535, the largest a 16-bit length field can state) such that the frame-header marker
+    starts at byte `target`: SOI (2 bytes) + sum(length + 2)."""
+    rem, segs = target - 2, []
+    while rem > 65537:
+        take = min(65535, rem - 2 - 4)  # leave room for a last segment of length >= 2
+        segs.append(take)
+        rem -= take + 2
+    assert 4 <= rem <= 65537, target
+    segs.append(rem - 2)
+    return segs
+
+
+def size_boundary_cases(full: bool):
+    """Size boundaries of the file structure: APPn segments of the largest expressible lengths, several maximal segments so that
+    the frame header starts just below / at / above 2^16 and 2^17 (and 2^18 in thorough), whole files just below / at / above
+    2^16 and 2^17 bytes for all three formats.  PNG: IHDR is by definition the first chunk, so no amount of data can precede
+    the size fields; large PNG files exercise the payload clause only."""
+    dims = ((405, 183),) if not full else ((405, 183), (65535, 1))
+    sofs = (0xC0, 0xC2) if not full else (0xC0, 0xC2, 0xCF)
+    for (w, h), sof in itertools.product(dims, sofs):
+        for seg in (65533, 65534, 65535):  # one segment of (nearly) maximal length
+            yield single({"fmt": "jpeg", "sfx": ".jpg", "w": w, "h": h, "app": [seg], "sof": sof, "len": [0, None]})
+        for k in ((16, 17) if not full else (16, 17, 18)):
+            for d in (-20, -11, -10, -9, -8, -4, -1, 0, 1, 9, 4096):
+                yield single({"fmt": "jpeg", "sfx": ".jpg", "w": w, "h": h, "app": app_for_offset((1 << k) + d), "sof": sof, "len": [0, None]})
+    # two equal maximal metadata segments (what EXIF + ICC look like), frame header behind them, with DQT/DHT and fill bytes
+    for tables, fill in itertools.product((0, 1), (0, 1)):
+        yield single({"fmt": "jpeg", "sfx": ".jpeg", "w": 640, "h": 480, "app": [65535, 65535], "tables": tables, "fill": fill, "len": [256, 0]})
+    for k, d in itertools.product((16, 17), (-1, 0, 1)):
+        n = (1 << k) + d
+        yield single({"fmt": "emf", "sfx": ".emf", "tot": n})
+        yield single({"fmt": "png", "sfx": ".png", "w": 70000, "h": 3, "len": [n - 57, None]})   # 57 bytes of PNG framing
+        yield single({"fmt": "jpeg", "sfx": ".jpg", "w": 3, "h": 65535, "app": [16], "len": [n - 400, n % 40]})  # big scan data
+
+
 def _selfcheck_reference_readers():
     """The oracle's header readers must agree with Pillow wherever Pillow is willing to open the file."""
     import io
@@ -591,12 +637,17 @@ def plan(run):
                 f"footnote lines 1..4 x source lines {'1..4' if not quick else 'derived (all values occur)'}, subline 0..4 lines; (G) overwrite histories in one process: "
                 "per suffix family 4 file versions (same length other bytes / other pixel size / other structure), all version sequences of length 2 "
                 f"and {'3' if not quick else '3 returning to the first version'} x document shapes [P] [P,Q] [Q,P] [P,P] x overwrite in place / replace by rename; a new "
-                "document is built and encoded after every rewrite and every earlier document is encoded again. non-trivial = >= 2 figures, or a list-valued size, or a file whose "
+                "document is built and encoded after every rewrite and every earlier document is encoded again; "
+                "(H) size boundaries: JPEG with one APPn of length 65533/65534/65535 and with several maximal APPn segments placing the frame header at "
+                "2^16 and 2^17 (thorough 2^18) + {-20,-11,-10,-9,-8,-4,-1,0,1,9,4096}, two maximal segments + DQT/DHT/fill byte, whole files of 2^16, 2^17 -1/0/+1 "
+                "bytes for PNG, JPEG, EMF. non-trivial = >= 2 figures, or a list-valued size, or a file whose "
                 "length is 39/0/1 mod 40, or a JPEG with segments in front of the frame header; distinct = distinct case")
     run.assumptions = [
         "the RTF reader's \\pict decoding and the PNG/JPEG header readers in mc/spec/figures.py are correct (cross-checked against Pillow at start)",
         "image files are synthetic: valid headers, arbitrary body bytes; EMF carries no pixel size, so \\picw/\\pich are not checked for EMF",
         "display size tolerance |goal - inches*1440| < 1 twip (truncation and rounding both accepted)",
+        "PNG: IHDR is the first chunk by definition, so the size fields sit at a fixed offset whatever else the file holds - large PNG files exercise the "
+        "payload clause only; EMF: the header carries no pixel size that rtflite uses, large EMF files likewise",
         "subline placement, component order within a page and page-break geometry are C06's business and not demanded here",
         "multi-line components: a selected page must show all lines of the component in order exactly once, however they are rendered (\\line, paragraphs, rows)",
         "histories: a document built after a file was rewritten must embed the current content; a document built before and encoded again may show "
@@ -614,6 +665,8 @@ def plan(run):
         run.layer("size-lists", "mc.props.c16:eval_case", cases, chunk=60, total=len(cases))
         cases = list(placement_cases(nmax))
         run.layer("placement-product", "mc.props.c16:eval_case", cases, chunk=60, total=len(cases))
+        cases = list(size_boundary_cases(not quick))
+        run.layer("size-boundaries", "mc.props.c16:eval_case", cases, chunk=4, total=len(cases))
         cases = list(caption_line_cases(4 if quick else 6, not quick))
         run.layer("caption-lines", "mc.props.c16:eval_case", cases, chunk=60, total=len(cases))
         cases = list(history_cases(not quick))
@@ -627,6 +680,8 @@ def plan(run):
     for need in ("len%40=39", "len%40=0", "len%40=1", "all-byte-values", "png-dim>65535", "jpeg-app-segments", "non-square",
                  "fmt=png", "fmt=jpeg", "fmt=emf", "suffix-uppercase", "size-list-shorter", "size-list-longer", "size-list-exact",
                  "multi-figure", "multi-line-title", "multi-line-footnote", "multi-line-source", "title-lines==figures",
+                 "jpeg-maximal-segment", "jpeg-frame-header-just-below-2^16", "jpeg-frame-header-at-or-above-2^16",
+                 "jpeg-frame-header-just-below-2^17", "jpeg-frame-header-at-or-above-2^17", "file>64KiB-png", "file>64KiB-jpeg", "file>64KiB-emf",
                  "history", "history-back-to-first-version", "history-same-length-other-bytes", "history-other-pixel-size"):
         if not run.cnt.get(need):
             run.harness_errors.append({"layer": "vacuity", "case": None, "error": f"counter {need} is zero"})
